@@ -1,4 +1,4 @@
-import Prom.Lemmas.RegistryHist
+import Prom.Lemmas.RegistryInv
 
 namespace Prom.C06
 open Prom
@@ -62,6 +62,74 @@ theorem register_ok_complete (r : Reg) (c : Coll)
   rw [hcid, hfree]
   simp
 
+/-- **register_ok_iff** — admission, exactly: a registration succeeds iff every descriptor passes
+    the three registry-level checks, the collector's descriptors are pairwise distinct and agree among
+    themselves on the signature of a shared name, and the collector (its id) is not registered. -/
+theorem register_ok_iff (r : Reg) (c : Coll) :
+    (r.register c).2 = .ok () ↔
+      (∀ d ∈ c.descs, DescOk r d) ∧ (c.descs.map (·.id)).Nodup ∧ SelfConsistent c.descs ∧
+      r.collectors.any (·.1 == cidOf (c.descs.map (·.id))) = false := by
+  constructor
+  · intro h
+    obtain ⟨h1, h2⟩ := register_ok_sound r c h
+    obtain ⟨_, h3, h4⟩ := register_ok_state r c h
+    exact ⟨h1, h2, h4, h3⟩
+  · rintro ⟨h1, h2, h3, h4⟩
+    exact register_ok_complete r c h1 h2 h3 h4
+
+/-- **admission_exact** — over ANY history of register / unregister calls (successful or refused)
+    starting from an empty registry: the next registration succeeds exactly when no descriptor of the
+    collector has the id of a descriptor of a *currently registered* collector, none disagrees in
+    its help/label-name signature with a descriptor *ever successfully registered* under the same
+    name (`ever` grows only on success and survives unregister), none repeats a common label, the
+    collector's own descriptors are distinct and mutually consistent, and the collector is not
+    registered. (`WellKeyedHist`: each unregister call names its collector by its descriptors, not by
+    a colliding wrapping sum of ids.) -/
+theorem admission_exact (labels : Option (List (Str × Str))) (pref : Option Str) (ops : List ROp)
+    (hwk : WellKeyedHist ({ labels := labels, pref := pref }, []) ops) (c : Coll) :
+    let s := ops.foldl stepR (({ labels := labels, pref := pref } : Reg), ([] : List Desc))
+    (s.1.register c).2 = .ok () ↔
+      (∀ d ∈ c.descs, clashesCommon labels d = false ∧ d.id ∉ curIds s.1 ∧
+        ∀ e ∈ s.2, e.fqName = d.fqName → e.dimHash = d.dimHash) ∧
+      (c.descs.map (·.id)).Nodup ∧ SelfConsistent c.descs ∧
+      s.1.collectors.any (·.1 == cidOf (c.descs.map (·.id))) = false := by
+  intro s
+  have inv : RegInv s.1 s.2 := regInv_history ops _ (regInv_init labels pref) hwk
+  have hl : s.1.labels = labels := by
+    show (ops.foldl stepR _).1.labels = labels
+    clear inv hwk
+    generalize hs0 : (({ labels := labels, pref := pref } : Reg), ([] : List Desc)) = s0
+    have h0 : s0.1.labels = labels := by rw [← hs0]
+    clear hs0
+    induction ops generalizing s0 with
+    | nil => exact h0
+    | cons op t ih =>
+      simp only [List.foldl_cons]
+      apply ih
+      cases op with
+      | reg c =>
+        show (s0.1.register c).1.labels = labels
+        unfold Reg.register
+        split
+        · exact h0
+        · split <;> exact h0
+      | unreg c =>
+        show (s0.1.unregister c).1.labels = labels
+        unfold Reg.unregister
+        simp only []
+        split <;> exact h0
+  rw [register_ok_iff]
+  constructor
+  · rintro ⟨h1, h2, h3, h4⟩
+    refine ⟨fun d hd => ?_, h2, h3, h4⟩
+    have := (descOk_iff inv d).1 (h1 d hd)
+    rw [hl] at this
+    exact this
+  · rintro ⟨h1, h2, h3, h4⟩
+    refine ⟨fun d hd => (descOk_iff inv d).2 ?_, h2, h3, h4⟩
+    rw [hl]
+    exact h1 d hd
+
 /-- re-registering a registered single-descriptor collector (or any collector whose descriptor id
     is in use) fails with `AlreadyReg` -/
 theorem register_same_single_alreadyReg (r : Reg) (d : Desc) (fams : List Family)
@@ -95,6 +163,58 @@ theorem unregister_frees (r : Reg) (c : Coll) (h : (r.unregister c).2 = .ok ()) 
     intro _
     exact hi
 
+/-- **unregister_then_register_again** — a collector that was admitted and then unregistered is
+    admitted again: unregister releases exactly its ids and its collector id, and the recorded
+    signatures of its names are its own. -/
+theorem unregister_then_register_again (r : Reg) (c : Coll) (h : (r.register c).2 = .ok ()) :
+    ((r.register c).1.unregister c).2 = .ok () ∧
+    (((r.register c).1.unregister c).1.register c).2 = .ok () := by
+  obtain ⟨hst, hfree, hself⟩ := register_ok_state r c h
+  obtain ⟨hok, hnd⟩ := register_ok_sound r c h
+  have hdi : distinctIds c.descs [] = c.descs.map (·.id) := by
+    have := distinctIds_of_nodup c.descs [] (by simpa using hnd)
+    simpa using this
+  have hun : ((r.register c).1.unregister c).2 = .ok () := by
+    rw [unregister_ok_iff, hdi, hst]
+    simp
+  refine ⟨hun, ?_⟩
+  obtain ⟨hf1, hf2⟩ := unregister_frees _ c hun
+  rw [register_ok_iff]
+  refine ⟨?_, hnd, hself, ?_⟩
+  · intro d hd
+    refine ⟨?_, ?_, ?_⟩
+    · have : ((r.register c).1.unregister c).1.labels = r.labels := by
+        rw [hst]; unfold Reg.unregister; simp only []; split <;> rfl
+      rw [this]; exact (hok d hd).1
+    · apply hf2
+      rw [hdi]; exact List.mem_map.2 ⟨d, hd, rfl⟩
+    · intro hh hlk
+      have hdim : ((r.register c).1.unregister c).1.dimHashes = (r.register c).1.dimHashes := by
+        unfold Reg.unregister; simp only []; split <;> rfl
+      rw [hdim, hst] at hlk
+      simp only at hlk
+      rw [dims_after r.dimHashes c.descs hself d.fqName] at hlk
+      cases hf : c.descs.find? (·.fqName == d.fqName) with
+      | some d' =>
+        rw [hf] at hlk
+        have hd' := List.mem_of_find?_eq_some hf
+        have hn : d'.fqName = d.fqName := by simpa using List.find?_some hf
+        rw [← Option.some.inj hlk]
+        exact hself d' hd' d hd hn
+      | none =>
+        have := List.find?_eq_none.1 hf d hd
+        simp at this
+  · rw [hdi] at hf1; exact hf1
+
+/-- after a successful unregister the collector's families are no longer collected: gather runs over
+    the remaining collectors only -/
+theorem gather_after_unregister (r : Reg) (c : Coll) (h : (r.unregister c).2 = .ok ()) :
+    (r.unregister c).1.gather =
+      gatherFams r.pref r.labels ((r.collectors.filter (·.1 != cidOf (distinctIds c.descs []))).flatMap (·.2.fams)) := by
+  have hc := (unregister_ok_iff r c).1 h
+  unfold Reg.unregister Reg.gather
+  simp only [hc, if_true]
+
 /-- non-vacuity / F3 regression: a two-descriptor collector refused at its second descriptor leaves
     the registry exactly as it was, so a later registration under the first name with another help
     text is admitted. -/
@@ -106,5 +226,13 @@ def isErr (x : Except RErr Unit) (e : RErr) : Bool := match x with | .error e' =
 def isOk (x : Except RErr Unit) : Bool := match x with | .ok _ => true | .error _ => false
 example : isErr (r1.register ⟨[dA, dB], []⟩).2 .alreadyReg = true ∧
     isOk ((r1.register ⟨[dA, dB], []⟩).1.register ⟨[dA'], []⟩).2 = true := by decide +kernel
+
+/-- non-vacuity of `admission_exact`: a history with a refused multi-descriptor registration and an
+    unregister meets `WellKeyedHist` -/
+example : WellKeyedHist (({} : Reg), []) [.reg ⟨[dB], []⟩, .reg ⟨[dA, dA'], []⟩, .unreg ⟨[dB], []⟩, .reg ⟨[dA], []⟩] := by
+  refine ⟨?_, trivial⟩
+  intro p hp hc
+  revert p
+  decide +kernel
 
 end Prom.C06
